@@ -191,9 +191,10 @@ let () =
                 let tol = tol_bg (nat_of_int m) bgdy in
                 (* input predicates naming the known limits of the code (see known_findings.d/tfm.json) *)
                 let wild_mass = not (Z.eqb (fst (List.nth bgdy (k - 1))) Z0) in
-                let wild_finite = List.exists (fun row -> f32_to_dy (List.nth row (k - 1)) <> None) mat32 in
+                let wild_pos = List.exists (fun row -> match f32_to_dy (List.nth row (k - 1)) with
+                    | Some (Zpos _, _) -> true | _ -> false) mat32 in
                 let itag = (if wild_mass then " wildcard-mass" else "")
-                           ^ (if wild_finite then " finite-wildcard-cell" else "") in
+                           ^ (if wild_pos then " positive-wildcard-cell" else "") in
                 let oits = List.map parse_iter (split ';' (List.assoc "it" ofields)) in
                 let fin = List.assoc "fin" ofields in
                 let first_state = List.fold_left (fun a it -> match a, it with
